@@ -293,6 +293,18 @@ MUTANTS = [
     ('c19-closure-types-new-key-empty', 'malt/pyct/static_analysis/type_inference.py', '''      else:
         existing_types[k] = set(v)''', '''      else:
         existing_types[k] = set()''', ['malt.pyct.static_analysis.type_inference.Analyzer._update_closure_types']),
+    ('c03-guard-on-simple-instead-of-composite', 'malt/converters/control_flow.py', '''    for v in block_vars:
+      if v.is_simple():
+        guarded_block_vars.append(v)''', '''    for v in block_vars:
+      if not v.is_simple():
+        guarded_block_vars.append(v)''', ['malt.converters.control_flow.ControlFlowTransformer._create_state_functions']),
+    ('c03-composites-moved-to-front', 'malt/converters/control_flow.py', '''      else:
+        guarded_block_vars.append(
+            templates.replace_as_expression(''', '''      else:
+        guarded_block_vars.insert(0,
+            templates.replace_as_expression(''', ['malt.converters.control_flow.ControlFlowTransformer._create_state_functions']),
+    ('c03-guard-names-wrong-variable', 'malt/converters/control_flow.py', '                name=ast.Constant(str(v))))',
+     '                name=ast.Constant(str(block_vars[0]))))', ['malt.converters.control_flow.ControlFlowTransformer._create_state_functions']),
     ('c10-has-ignores-subkey', 'malt/pyct/cache.py', '    return subkey in parent', '    return True',
      ['malt.pyct.cache._TransformedFnCache.has']),
 ]
